@@ -172,8 +172,19 @@ pub fn paint_minus_and_plus_lines_side_by_side(
     };
 
     for (minus_line_index, plus_line_index) in line_alignment {
+        // (the empty panel beside a continuation row of a wrapped line shows no numbers either,
+        // whatever its number format asks for)
+        let plus_line_is_continuation = matches!(
+            plus_line_index.map(|i| &line_states[Right][i]),
+            Some(State::HunkPlusWrapped)
+        );
+        let minus_line_is_continuation = matches!(
+            minus_line_index.map(|i| &line_states[Left][i]),
+            Some(State::HunkMinusWrapped)
+        );
         let left_state = match minus_line_index {
             Some(i) => &line_states[Left][i],
+            None if plus_line_is_continuation => &State::HunkMinusWrapped,
             None => &State::HunkMinus(DiffType::Unified, None),
         };
         output_buffer.push_str(&paint_left_panel_minus_line(
@@ -189,6 +200,7 @@ pub fn paint_minus_and_plus_lines_side_by_side(
 
         let right_state = match plus_line_index {
             Some(i) => &line_states[Right][i],
+            None if minus_line_is_continuation => &State::HunkPlusWrapped,
             None => &State::HunkPlus(DiffType::Unified, None),
         };
         output_buffer.push_str(&paint_right_panel_plus_line(
@@ -213,6 +225,7 @@ pub fn paint_minus_and_plus_lines_side_by_side(
                 line_numbers_data.line_number[Left] =
                     line_numbers_data.line_number[Left].saturating_sub(1)
             }
+            // (an empty panel beside a continuation row: no number was written, none counted)
             // Duplicating the logic from `linenumbers_and_styles()` a bit:
             (State::HunkMinusWrapped | State::HunkPlusWrapped, _, _, _) => {}
             (_, _, Some(_), Some(_)) => {
@@ -437,6 +450,8 @@ fn paint_minus_or_plus_panel_line<'a>(
                 State::HunkPlus(DiffType::Unified, s) => {
                     State::HunkMinus(DiffType::Unified, s.clone())
                 }
+                State::HunkMinusWrapped => State::HunkPlusWrapped,
+                State::HunkPlusWrapped => State::HunkMinusWrapped,
                 _ => unreachable!(),
             };
             (
